@@ -77,14 +77,23 @@ def render(node):
     return node["k"]
 
 
-def derives(prog, b, l, seen=None, depth=0):
-    """terminals a local's value is computed from (through all definitions, call arguments included)"""
+def derives(prog, b, l, seen=None, depth=0, at_bb=None):
+    """terminals a local's value is computed from (through all definitions, call arguments included).
+    With `at_bb`, only definitions that can reach that block are considered (a re-assignment after the use does not count)."""
     out = set()
     seen = seen if seen is not None else set()
     if (b.key, l) in seen or depth > 80:
         return out
     seen.add((b.key, l))
     ds = b.defs().get(l, [])
+    if at_bb is not None and len(ds) > 1:
+        def reaches(d):
+            if d[0] == "arg":
+                return True
+            bb = d[1]
+            return bb == at_bb or at_bb in b.reach_from([bb])
+        # a definition in the same block as the use counts only if it precedes it; calls end their block, assigns: keep (conservative)
+        ds = [d for d in ds if reaches(d)]
     if not ds and b.is_closure and l == 1:
         out.add(("capture",))
     # in-place mutation through `&mut l` passed to a call: the other arguments flow into l
@@ -111,7 +120,7 @@ def derives(prog, b, l, seen=None, depth=0):
                 fs = [e["n"] for e in p2["p"] if e["k"] == "field"]
                 if fs and (p2["l"] <= b.nargs):
                     out.add(("field", "%s.%s" % (b.local_name(p2["l"]), ".".join(map(str, fs)))))
-                out |= derives(prog, b, p2["l"], seen, depth + 1)
+                out |= derives(prog, b, p2["l"], seen, depth + 1, at_bb)
             if not had:
                 out.add(("const",))
         elif d[0] in ("call", "partial_call"):
@@ -125,7 +134,7 @@ def derives(prog, b, l, seen=None, depth=0):
                 p2 = F.op_place(a)
                 if p2 is not None:
                     follow = True
-                    out |= derives(prog, b, p2["l"], seen, depth + 1)
+                    out |= derives(prog, b, p2["l"], seen, depth + 1, at_bb)
             key = c.key or ""
             if not key.startswith(("core::", "alloc::", "std::", "hashbrown::", "rayon")) or not follow:
                 out.add(("call", nm))
